@@ -117,6 +117,11 @@ def oracle_c04(sc):
     (timeouts fire only at quiescence in these runs); afterwards the session is disconnected and
     new requests are refused with a transport error."""
     spec = sc.spec
+    # "under every schedule and fault a synchronous request returns or raises within its configured timeout":
+    # the only place a call may block is a wait that has a time limit
+    for name, (label, timed) in getattr(sc, 'blocked_at', {}).items():
+        if name.startswith('C') and label == 'ev.wait' and not timed and sc.result == 'blocked':
+            return ('client thread %s is blocked in a wait without time limit: the call can outlive its timeout' % name, 'untimed_wait')
     loss = [a[0] for a in spec['server'] if a[0] in ('eof', 'err')]
     if spec.get('wfail') is not None:
         loss = ['wfail'] + loss
@@ -274,6 +279,8 @@ def gen_spec(rng, pid):
         if rng.random() < 0.6:      # a thread issuing requests while the failure is processed / afterwards
             clients.append([('rpc', rng.random() < 0.5)] if rng.random() < 0.5 else [('await_disc',), ('rpc', True)])
         profile = rng.choice(['default', 'junos'])
+        if rng.random() < 0.12:            # no loss at all: the server simply never answers some requests
+            server = [a for a in server if a[0] == 'reply'][: max(0, nreq - 1)]; wf = None
     elif pid == 'C14':
         profile = rng.choice(['default', 'default', 'junos', 'sros', 'nexus'])
         answered = rng.sample(order, rng.randint(0, nreq))
@@ -323,7 +330,8 @@ SMALL = {
             dict(profile='default', clients=[[('rpc', False), ('rpc', False), ('rpc', False)], [('rpc', False)]], server=[('eof',)], eager=False),
             dict(profile='default', clients=[[('rpc', False), ('rpc', True)]], server=[], eager=False, wfail=[1, 17]),
             dict(profile='default', clients=[[('rpc', True)], [('rpc', False)]], server=[], eager=False, wfail=[0, 0]),
-            dict(profile='default', clients=[[('rpc', True)], [('rpc', True)]], server=[('partial', 0, 0), ('eof',)], eager=False, app='reenter')],
+            dict(profile='default', clients=[[('rpc', True)], [('rpc', True)]], server=[('partial', 0, 0), ('eof',)], eager=False, app='reenter'),
+            dict(profile='default', clients=[[('rpc', True)], [('rpc', True)]], server=[('reply', 1)], eager=False)],
     'C11': [dict(profile='junos', clients=[[('rpc', True), ('take', False)], [('take', True)]], server=[('notif', 1), ('reply', 0), ('notif', 2)], eager=False),
             dict(profile='default', clients=[[('rpc', True)], [('take', True), ('take', False)]], server=[('reply', 0), ('notif', 1)], eager=False),
             dict(profile='iosxr', clients=[[('rpc', True)], [('await_disc',), ('take', True), ('take', True), ('take', True)]], server=[('notif', 1), ('reply', 0), ('notif', 2), ('eof',)], eager=False)],
